@@ -1078,6 +1078,11 @@ def run_true(case):
     g2 = DensePhasedGenotypeMatrix(mat=geno, taxa=None if names is None else numpy.array(names, dtype=object),
                                    taxa_grp=None if grp is None else numpy.array(grp, dtype="int64"))
     ptobj = df if case.get("pass_table") else None
+    if case.get("pass_bvmat"):
+        # the phenotype argument is a breeding-value matrix of the same size (estimates from elsewhere, another taxon order):
+        # it is an input the truth does not depend on
+        from pybrops.popgen.bvmat.DenseBreedingValueMatrix import DenseBreedingValueMatrix
+        ptobj = DenseBreedingValueMatrix.from_numpy(rs.normal(size=(n, t)) * 3.0 + 1.0)
     with warnings.catch_warnings():
         warnings.simplefilter("ignore")
         out = TrueBreedingValue(pop["model"]).estimate(ptobj, g2, miscout=None)
@@ -1101,7 +1106,7 @@ def gen_true_cases(rnd, tier):
     N = 1000 if tier == "quick" else 18000
     for k in range(N):
         c = _base_case(rnd, tier)
-        c.update(kind="true", pass_table=rnd.random() < 0.5)
+        c.update(kind="true", pass_table=rnd.random() < 0.5, pass_bvmat=rnd.random() < 0.3)
         yield c
 
 
